@@ -178,6 +178,10 @@ func decodeBatchRecords(batch []byte, topic string, partition int32) ([]Record, 
 	}
 
 	recordsData := batch[recordBatchHeaderLen:]
+	// The count comes from the client's batch header; every record takes at least one byte.
+	if int64(recordCount) > int64(len(recordsData)) {
+		return nil, fmt.Errorf("record count %d exceeds batch payload of %d bytes", recordCount, len(recordsData))
+	}
 	reader := bytes.NewReader(recordsData)
 	records := make([]Record, 0, recordCount)
 	for i := int32(0); i < recordCount; i++ {
@@ -197,6 +201,9 @@ func decodeRecord(reader *bytes.Reader, baseOffset int64, baseTimestamp int64, t
 	}
 	if length < 0 {
 		return Record{}, fmt.Errorf("invalid record length")
+	}
+	if length > int64(reader.Len()) {
+		return Record{}, fmt.Errorf("record length %d exceeds remaining batch bytes %d", length, reader.Len())
 	}
 
 	recordData := make([]byte, length)
@@ -242,6 +249,10 @@ func decodeRecord(reader *bytes.Reader, baseOffset int64, baseTimestamp int64, t
 		return Record{}, err
 	}
 
+	// Each header takes at least two bytes (key length + value length).
+	if headerCount < 0 || headerCount > int64(buf.Len()) {
+		return Record{}, fmt.Errorf("invalid header count %d with %d record bytes left", headerCount, buf.Len())
+	}
 	headers := make([]Header, 0, headerCount)
 	for i := int64(0); i < headerCount; i++ {
 		keyLen, err := readVarint(buf)
@@ -280,6 +291,9 @@ func readNullableBytes(reader *bytes.Reader, length int64) ([]byte, error) {
 	}
 	if length == 0 {
 		return []byte{}, nil
+	}
+	if length > int64(reader.Len()) {
+		return nil, io.ErrUnexpectedEOF
 	}
 	out := make([]byte, length)
 	if _, err := io.ReadFull(reader, out); err != nil {
@@ -345,6 +359,9 @@ func parseIndex(data []byte) ([]IndexEntry, error) {
 	var reserved uint16
 	if err := binary.Read(reader, binary.BigEndian, &reserved); err != nil {
 		return nil, err
+	}
+	if count < 0 || int64(count)*12 > int64(reader.Len()) {
+		return nil, fmt.Errorf("invalid index entry count %d for %d bytes of entries", count, reader.Len())
 	}
 	entries := make([]IndexEntry, count)
 	for i := int32(0); i < count; i++ {
